@@ -82,8 +82,22 @@ def tmpT (tid : Nat) : Nat := nVars + 2 * tid + 1
     box) is slot `embSlot b` -/
 def embBase : Nat := nSlots
 def maxBlocks : Nat := 232
-def nTotal : Nat := embBase + maxBlocks
+/-- size of the family of embedded slots per block in the slot layout of the drivers (the model and the theorems
+    put no bound on it: slot k of block b exists in every state with `embSlotK b k < n`) -/
+def famK : Nat := 4
+def nTotal : Nat := embBase + maxBlocks * famK
+/-- the FAMILY of handles embedded in payload block `b` (the elements of a list / array / map payload, the
+    children of an Xml element, the `next` pointer of a counted object): slot k of block b, for b < maxBlocks -/
+def embSlotK (b k : Nat) : Nat := embBase + b + maxBlocks * k
+/-- slot 0 of the family -/
 def embSlot (b : Nat) : Nat := embBase + b
+
+theorem embSlotK_zero (b : Nat) : embSlotK b 0 = embSlot b := rfl
+
+theorem embSlotK_inj {b b' k k' : Nat} (hb : b < maxBlocks) (hb' : b' < maxBlocks) (h : embSlotK b k = embSlotK b' k') :
+    b = b' ∧ k = k' := by
+  simp only [embSlotK, maxBlocks] at *
+  omega
 
 def Pc.notWriting : Pc → Bool
   | .writing _ _ => false
@@ -103,11 +117,13 @@ inductive Act
   | give (v tid' : Nat)                     -- hand the C++ object in slot v over to another thread
   | clr (t : Nat)                           -- `data = &emptyData` / the default constructor after a destructor: the stale pointer is gone
   -- handles embedded in a payload block c (slot `embSlot c`), used by threads that do not own that slot:
-  | incE (t c v : Nat)                      -- copy the embedded handle of c into the empty own slot t (+ increment); the thread
+  | incE (t c k v : Nat)                    -- copy the embedded handle k of c into the empty own slot t (+ increment); the thread
                                             --   holds block c through its own slot v (a shared payload is read-only)
-  | takeE (t c v : Nat)                     -- move the embedded handle of c into the empty own slot t: only the sole owner of c
-  | putE (c t v : Nat)                      -- move the own slot t into the empty embedded slot of c: only the sole owner of c
-  | takeF (t c : Nat)                       -- the thread that is releasing c takes the embedded handle out (destructor of c)
+  | takeE (t c k v : Nat)                   -- move the embedded handle k of c into the empty own slot t: only the sole owner of c
+  | putE (c k t v : Nat)                    -- move the own slot t into the empty embedded slot k of c: only the sole owner of c
+  | takeF (t c k : Nat)                     -- the thread that is releasing c takes the embedded handle k out (destructor of c)
+  | adoptF (c k : Nat)                      -- the thread that is releasing c becomes the owner of the embedded handle k (it runs the
+                                            --   destructors of all elements of the dying payload after its own decrement reached zero)
 deriving Repr
 
 /-- copy the handle in slot src into slot t, incrementing the counter of a counted block -/
@@ -141,25 +157,29 @@ def astep (s : St) (tid : Nat) : Act → Option St
     if t < s.n ∧ src < s.n ∧ s.owner t = tid ∧ s.owner src = tid ∧ s.pc tid = .idle ∧ (s.slots t).isBlk = false then
       some (doInc s t src)
     else none
-  | .incE t c v =>
-    if t < s.n ∧ embSlot c < s.n ∧ s.owner t = tid ∧ s.pc tid = .idle ∧ (s.slots t).isBlk = false ∧
-       (s.pc (s.owner (embSlot c))).notWriting = true ∧ v < s.n ∧ s.owner v = tid ∧ s.slots v = .blk c then
-      some (doInc s t (embSlot c))
+  | .incE t c k v =>
+    if t < s.n ∧ embSlotK c k < s.n ∧ s.owner t = tid ∧ s.pc tid = .idle ∧ (s.slots t).isBlk = false ∧
+       (s.pc (s.owner (embSlotK c k))).notWriting = true ∧ v < s.n ∧ s.owner v = tid ∧ s.slots v = .blk c ∧ c < maxBlocks then
+      some (doInc s t (embSlotK c k))
     else none
-  | .takeE t c v =>
-    if t < s.n ∧ embSlot c < s.n ∧ t ≠ embSlot c ∧ s.owner t = tid ∧ s.pc tid = .idle ∧ (s.slots t).isBlk = false ∧
-       (s.pc (s.owner (embSlot c))).notWriting = true ∧ soleVia s tid v c then
-      some (doMove s t (embSlot c))
+  | .takeE t c k v =>
+    if t < s.n ∧ embSlotK c k < s.n ∧ t ≠ embSlotK c k ∧ s.owner t = tid ∧ s.pc tid = .idle ∧ (s.slots t).isBlk = false ∧
+       (s.pc (s.owner (embSlotK c k))).notWriting = true ∧ soleVia s tid v c ∧ c < maxBlocks then
+      some (doMove s t (embSlotK c k))
     else none
-  | .putE c t v =>
-    if t < s.n ∧ embSlot c < s.n ∧ t ≠ embSlot c ∧ s.owner t = tid ∧ s.pc tid = .idle ∧ (s.slots (embSlot c)).isBlk = false ∧
-       (s.pc (s.owner (embSlot c))).notWriting = true ∧ soleVia s tid v c then
-      some (doMove s (embSlot c) t)
+  | .putE c k t v =>
+    if t < s.n ∧ embSlotK c k < s.n ∧ t ≠ embSlotK c k ∧ s.owner t = tid ∧ s.pc tid = .idle ∧ (s.slots (embSlotK c k)).isBlk = false ∧
+       (s.pc (s.owner (embSlotK c k))).notWriting = true ∧ soleVia s tid v c ∧ c < maxBlocks then
+      some (doMove s (embSlotK c k) t)
     else none
-  | .takeF t c =>
-    if t < s.n ∧ embSlot c < s.n ∧ t ≠ embSlot c ∧ s.owner t = tid ∧ s.pc tid = .freeing c ∧ (s.slots t).isBlk = false ∧
-       (s.pc (s.owner (embSlot c))).notWriting = true then
-      some (doMove s t (embSlot c))
+  | .takeF t c k =>
+    if t < s.n ∧ embSlotK c k < s.n ∧ t ≠ embSlotK c k ∧ s.owner t = tid ∧ s.pc tid = .freeing c ∧ (s.slots t).isBlk = false ∧
+       (s.pc (s.owner (embSlotK c k))).notWriting = true ∧ c < maxBlocks then
+      some (doMove s t (embSlotK c k))
+    else none
+  | .adoptF c k =>
+    if embSlotK c k < s.n ∧ s.pc tid = .freeing c ∧ (s.pc (s.owner (embSlotK c k))).notWriting = true ∧ c < maxBlocks then
+      some { s with owner := upd s.owner (embSlotK c k) tid }
     else none
   | .dec t =>
     if t < s.n ∧ s.owner t = tid ∧ s.pc tid = .idle then
@@ -391,16 +411,16 @@ def ptrAssign (st : St) (tid d src : Nat) : List Act :=
 
 /-- `d = v->next`: the handle embedded in the object that the own slot v designates is copied -/
 def ptrAssignEmb (st : St) (tid d c v : Nat) : List Act :=
-  match astep st tid (.incE (tmpT tid) c v) with
-  | some st1 => [.incE (tmpT tid) c v] ++ relP st1 tid d relFuel ++ [.move d (tmpT tid)]
-  | none => [.incE (tmpT tid) c v]
+  match astep st tid (.incE (tmpT tid) c 0 v) with
+  | some st1 => [.incE (tmpT tid) c 0 v] ++ relP st1 tid d relFuel ++ [.move d (tmpT tid)]
+  | none => [.incE (tmpT tid) c 0 v]
 
 /-- `d->next = src` by the thread that holds the ONLY handle of the object c (through its slot d): the
     embedded handle is taken out, released and replaced (`takeE` / `putE`) -/
 def ptrLinkSole (st : St) (tid d c src : Nat) : List Act :=
-  let first : List Act := (match st.slots src with | .blk _ => [.inc (tmpT tid) src] | _ => []) ++ [.takeE (tmpU tid) c d]
+  let first : List Act := (match st.slots src with | .blk _ => [.inc (tmpT tid) src] | _ => []) ++ [.takeE (tmpU tid) c 0 d]
   match runT st tid first with
-  | some st1 => first ++ relP st1 tid (tmpU tid) relFuel ++ [.putE c (tmpT tid) d]
+  | some st1 => first ++ relP st1 tid (tmpU tid) relFuel ++ [.putE c 0 (tmpT tid) d]
   | none => first
 
 def soleBlk (st : St) (d : Nat) : Option Nat :=
